@@ -116,6 +116,13 @@ def check_lookups(t, snap=None, what="result"):
     if not snap["obs"] or not snap["samp"]:
         return
     rows = snap["rows"]
+    if len(rows) != len(snap["obs"]) or \
+            any(len(r) != len(snap["samp"]) for r in rows):
+        raise Violation("lookup-inconsistent", "%s: the matrix is %d x %s "
+                        "but the table lists %d observation and %d sample "
+                        "IDs" % (what, len(rows),
+                                 sorted({len(r) for r in rows}),
+                                 len(snap["obs"]), len(snap["samp"])))
 
     def cells():
         for a, o in enumerate(snap["obs"]):
